@@ -112,6 +112,7 @@ theorem parse_no_panic_of_wf (pf : Bytes → Option UInt64) (items : List Item)
 theorem wf_of_itemOK {it : Item} (h : Lex.itemOK it = true) : WFItem it := by
   simp only [Lex.itemOK, Lex.sliced1, Lex.sliced2, Bool.and_eq_true, Bool.or_eq_true, Bool.not_eq_true',
     decide_eq_true_eq, beq_eq_false_iff_ne, beq_iff_eq] at h
+  replace h := h.1
   constructor
   · intro ht hv
     rcases h.1 with h1 | h1
@@ -122,15 +123,48 @@ theorem wf_of_itemOK {it : Item} (h : Lex.itemOK it = true) : WFItem it := by
     · rcases ht with ht | ht <;> simp [ht] at h2
     · exact h2
 
+theorem mem_dropLast_or_last {α : Type} (xs : List α) (x : α) (h : x ∈ xs) :
+    x ∈ xs.dropLast ∨ xs.getLast? = some x := by
+  induction xs with
+  | nil => simp at h
+  | cons y r ih =>
+    cases r with
+    | nil => simp at h; right; simp [h]
+    | cons z r' =>
+      simp only [List.mem_cons] at h
+      rcases h with rfl | h
+      · left; simp [List.dropLast]
+      · have := ih (by simpa using h)
+        rcases this with h1 | h1
+        · left; simp only [List.dropLast_cons₂, List.mem_cons]; exact Or.inr h1
+        · right; simpa [List.getLast?_cons_cons] using h1
+
 /-- every token the lexer model sends is long enough for the slices the parser takes of it -/
 theorem lex_wf (input : Bytes) (exprMode : Bool) (is : List Item)
     (h : Lex.lexAll input exprMode = .items is) : ∀ it ∈ is, WFItem it := by
+  obtain ⟨is', hl, ⟨e, hlast, hty⟩, _, hok⟩ := lex_items input exprMode
+  rw [h] at hl
+  simp only [Lex.LexResult.items.injEq] at hl
+  subst hl
+  intro it hit
+  rcases mem_dropLast_or_last is it hit with h1 | h1
+  · exact wf_of_itemOK (hok it h1)
+  · rw [hlast] at h1
+    simp only [Option.some.injEq] at h1
+    subst h1
+    constructor <;> intro ht <;> rcases hty with h | h <;> simp [h] at ht
+
+/-- the EOF item is only ever the last item of the lexer -/
+theorem lex_eof_last (input : Bytes) (exprMode : Bool) (is : List Item)
+    (h : Lex.lexAll input exprMode = .items is) : ∀ it ∈ is.dropLast, it.typ ≠ .tEOF := by
   obtain ⟨is', hl, _, _, hok⟩ := lex_items input exprMode
   rw [h] at hl
   simp only [Lex.LexResult.items.injEq] at hl
   subst hl
   intro it hit
-  exact wf_of_itemOK (hok it hit)
+  have := hok it hit
+  simp only [Lex.itemOK, Bool.and_eq_true, bne_iff_ne, ne_eq] at this
+  exact this.2
 
 theorem lexWF : LexWF := fun str is h => lex_wf str true is h
 
